@@ -36,16 +36,63 @@ def applyEmit (w : World) (i : Nat) (toks : List Backref) (e : Emit) (src : Slic
     | some b => (w.backfill i b bs).map (·, toks)
     | none => none
 
-/-- Apply the emits produced for one input piece located at `base`.  Borrowed
-appends refer to consecutive sub-slices of `base`, except that bytes the codec
-drops (the stuff sequence on the encoder side) or injects are accounted for by
-`skip`: for every emit the caller provides the offset of its bytes in the piece. -/
-def applyEmits (w : World) (i : Nat) (toks : List Backref) :
-    List (Emit × Nat) → Slice → Option (World × List Backref)
+/-- Apply the emits of one state-machine step; borrowed appends all refer to the
+front of the not-yet-consumed input, which lives at `src`. -/
+def applyStep (w : World) (i : Nat) (toks : List Backref) : List Emit → Slice → Option (World × List Backref)
   | [], _ => some (w, toks)
-  | (e, off) :: rest, base =>
-    match applyEmit w i toks e { base with off := base.off + off } with
-    | some (w', toks') => applyEmits w' i toks' rest base
+  | e :: rest, src =>
+    match applyEmit w i toks e src with
+    | some (w', toks') => applyStep w' i toks' rest src
     | none => none
+
+structure EncW where
+  st : EncState
+  /-- next placeholder id = number of placeholders registered so far -/
+  nid : Nat
+  toks : List Backref
+  deriving Repr
+
+/-- `Encoder::new_from_iovec`: register the first header placeholder. -/
+def encInit (p : Params) (w : World) (i : Nat) : Option (World × EncW) :=
+  let (s0, e0) := Enc.init p 0
+  match applyStep w i [] e0 ⟨.ext 0, 0, 0⟩ with
+  | some (w', toks) => some (w', ⟨s0, 1, toks⟩)
+  | none => none
+
+/-- `encode` / `encode_copy` of a piece whose bytes are `input`, located at `base`
+(a caller buffer, or arena memory for anchored input). -/
+def encFeed (p : Params) : Nat → World → Nat → EncW → Method → Slice → List UInt8 → Nat → Option (World × EncW)
+  | 0, w, _, e, _, _, _, _ => some (w, e)
+  | fuel + 1, w, i, e, m, base, input, pos =>
+    if input.isEmpty then some (w, e)
+    else
+      let o := Enc.consumeOnce p e.st e.nid m input
+      match applyStep w i e.toks o.emits { base with off := base.off + pos, len := base.len - pos } with
+      | none => none
+      | some (w', toks') =>
+        encFeed p fuel w' i ⟨o.st, o.nextId, toks'⟩ m base (input.drop o.consumed) (pos + o.consumed)
+
+/-- `Encoder::finish`. -/
+def encFinish (p : Params) (w : World) (i : Nat) (e : EncW) : Option World :=
+  (applyStep w i e.toks (Enc.finish p e.st) ⟨.ext 0, 0, 0⟩).map (·.1)
+
+/-- `decode` / `decode_copy` of a piece; returns the error (if any) after applying
+whatever was emitted before it, exactly as the Rust code does. -/
+def decFeed (p : Params) (m : Method) : Nat → World → Nat → DecState → Slice → List UInt8 → Nat →
+    Option (World × Except DecErr DecState)
+  | 0, w, _, s, _, _, _ => some (w, .ok s)
+  | fuel + 1, w, i, s, base, input, pos =>
+    match input with
+    | [] => some (w, .ok s)
+    | b :: rest =>
+      match Dec.once p m s b rest with
+      | .error (err, es) =>
+        match applyStep w i [] es base with
+        | some (w', _) => some (w', .error err)
+        | none => none
+      | .ok o =>
+        match applyStep w i [] o.emits { base with off := base.off + pos, len := base.len - pos } with
+        | none => none
+        | some (w', _) => decFeed p m fuel w' i o.st base (input.drop o.consumed) (pos + o.consumed)
 
 end Woodpile.EncWorld
